@@ -289,6 +289,12 @@ def check_conversions(ctx: Ctx):
                 other = other_raw.reshape(-1, 3)[0]
                 if not (close(other[0], llh[0][0], ulp=4, abs_=1e-15) and close(other[1], llh[0][1], ulp=4, abs_=1e-15) and abs(other[2] - llh[0][2]) <= 4 * math.ulp(float(np.linalg.norm(xyz[0]))) + 1e-9):
                     gviolate(ctx, f"shape-consistency:trs2llh:{sh}", f"{ell}: trs2llh gives {other.tolist()} for shape {sh} but {llh[0].tolist()} for {shape}", {**case, "as": sh})
+            # convert, write into the result in place, convert an equal-valued fresh position: the closed form again
+            for sh in ("1d", "1xk"):
+                alias_history(ctx, case, ell, E, sh, "trs", xyz[0])
+                alias_history(ctx, case, ell, E, sh, "llh", llh[0].tolist())
+        elif rng.random() < 0.1:
+            alias_history(ctx, case, ell, E, "nxk", "trs", xyz)
         # the other direction from generated geodetic coordinates
         g = [[gen_lat(rng), gen_lon(rng), rng.choice([rng.uniform(-1e5, 1e5), rng.uniform(1e5, 5e7), 0.0])] for _ in range(m)]
         case2 = {"fn": "llh2trs/trs2llh", "ellipsoid": ell, "shape": shape, "llh": g}
@@ -315,6 +321,67 @@ def check_conversions(ctx: Ctx):
             if not err <= tol:
                 gviolate(ctx, f"roundtrip:llh->trs->llh:{'near' if abs(h) <= 1e5 else 'far'}", f"{ell}: llh -> trs -> llh moves the point by {err:.3e} m (lat {lat!r}, h {h:.1f})", {**case2, "i": i})
     measure_accuracy(ctx, pending)
+
+
+def alias_history(ctx, case, ell, E, sh, system, rows):
+    """history: convert, write into the converted result in place, convert an equal-valued fresh input —
+    the second conversion is the closed form again (function level and Position level, both directions)"""
+    Position, *_, ellipsoid, T = _imp()
+    drv = ctx.driver
+    rows = [rows] if not isinstance(rows[0], (list, tuple)) else rows
+    target = "llh" if system == "trs" else "trs"
+    f = T.trs2llh if system == "trs" else T.llh2trs
+    c = {**case, "history": f"{system}->{target}: convert, write into the result, convert an equal-valued fresh input", "as": sh, "input": rows}
+    ctx.count(f"alias-history:{system}->{target}:{sh}")
+    mod = [floats(a) for a in drv.ask([f"c05 f {'trs2llh' if system == 'trs' else 'llh2trs'} {ell} {fline(*r)}" for r in rows])]
+
+    def is_closed_form(vals):
+        vals = np.asarray(vals, dtype=float).reshape(-1, 3)
+        for v, mrow, r in zip(vals, mod, rows):
+            rad = math.sqrt(sum(x * x for x in (r if system == "trs" else v)))
+            if system == "trs":
+                ok = close(v[0], mrow[0], ulp=4, abs_=1e-15) and close(v[1], mrow[1], ulp=4, abs_=1e-15) and abs(v[2] - mrow[2]) <= 4 * math.ulp(rad) + 1e-9
+            else:
+                ok = all(close(a_, b_, ulp=4, abs_=rad * 4.5e-16) for a_, b_ in zip(v, mrow))
+            if not ok:
+                return False
+        return True
+
+    try:
+        # --- the converter functions
+        a = as_shape(rows, sh)
+        r1 = f(a.copy(), E)
+        snap = np.array(r1, dtype=float, copy=True)
+        try:
+            r1[...] = np.asarray(r1) + 1031.0
+        except ValueError:
+            pass  # a read-only result cannot be written into: nothing to share
+        r2 = np.asarray(f(a.copy(), E), dtype=float)
+        if not np.array_equal(r2, snap) or not is_closed_form(r2):
+            gviolate(ctx, f"conversion-result-aliases-cache:{f.__name__}", f"{ell}: after writing +1031 into the result of {f.__name__}({sh}), converting an equal input again gives {r2.tolist()} instead of {snap.tolist()}", c)
+        # --- Position objects
+        p = Position(a.copy(), system, ellipsoid=E)
+        x = getattr(p, target)
+        snap_x = np.array(x, dtype=float, copy=True)
+        try:
+            x[...] = np.asarray(x, dtype=float) + 1031.0
+        except ValueError:
+            pass
+        q = Position(a.copy(), system, ellipsoid=E)
+        y = np.asarray(getattr(q, target), dtype=float)
+        if not np.array_equal(y, snap_x) or not is_closed_form(y):
+            gviolate(ctx, f"conversion-result-aliases-cache:Position.{target}", f"{ell}: after writing +1031 into pos.{target} ({sh}), an equal-valued fresh position converts to {y.tolist()} instead of {snap_x.tolist()}", c)
+        if not np.array_equal(np.asarray(p, dtype=float), a) or not np.array_equal(np.asarray(q, dtype=float), a):
+            gviolate(ctx, "conversion-writes-back-into-source", f"{ell}: writing into pos.{target} changed the position it was converted from", c)
+        # the round trip of the fresh position is still the identity
+        back = np.asarray(getattr(getattr(q, target), system), dtype=float).reshape(-1, 3)
+        ref = np.asarray(rows, dtype=float)
+        if system == "trs":
+            err = float(np.max(np.linalg.norm(back - ref, axis=1)))
+            if not err <= FAR:
+                gviolate(ctx, "roundtrip-after-write:Position", f"{ell}: round trip of a fresh position after an in-place write elsewhere is off by {err:.3e} m", c)
+    except Exception as e:
+        gviolate(ctx, f"raises:alias-history:{type(e).__name__}", f"convert / write / convert raised {type(e).__name__}: {e}", c)
 
 
 def measure_accuracy(ctx: Ctx, pending):
